@@ -34,14 +34,26 @@
 (*                   class_decl part, which starts with maybe_cancel_propagated_canonical_type(r) (Pass2).    *)
 (*   EndCanon(t)     t's canonical type is the equal candidate, or t itself (appended to canonMap).           *)
 (*                                                                                                          *)
-(* Switches (CONSTANTS): GraphClass "any" | "consistent" (what one C translation unit can contain: from any   *)
-(* type at most one struct / typedef per name is reachable), OrderClass "any" | "scc" (sub-types first, any    *)
-(* order inside a strongly connected component: what the readers' late canonicalization does),                *)
-(* CycleCheck "set" (as coded) | "pair" (repaired), Pass2Cancel "flag" (as coded: the class_decl pass clears r's  *)
-(* canonical type whenever its canonical_type_propagated_ flag is set -- the flag is never reset, so this also  *)
-(* hits types whose propagation was confirmed long ago) | "fresh" (repaired: only a canonical type r received in  *)
-(* the class_or_union pass of this very comparison), PropagateDespiteCycle (mutant: a detected cycle records no  *)
-(* dependency and nothing is ever cancelled -- TLC must refute CanonIffBisim, otherwise the check is vacuous).    *)
+(* Switches (CONSTANTS).  Three of them select, per defect the model exposed, the code as written or its repair:   *)
+(*   CycleCheck   "set"   as coded: is_comparison_cycle_detected = l OR r is somewhere among the classes being        *)
+(*                        compared -- (l, r') with r' another type than the r that l is being compared with is       *)
+(*                        "a cycle" and assumed equal (TLC: 3 nodes; real library: two translation units)             *)
+(*                "pair"  repaired: the pair (l, r) is on the operand stack                                          *)
+(*   Pass2Cancel  "flag"  as coded: the class_decl pass clears r's canonical type whenever canonical_type_propagated_ *)
+(*                        is set; the flag is never reset, so this also hits types whose propagation was confirmed     *)
+(*                        long ago: a canonicalized type loses its canonical type (TLC: 3 nodes)                      *)
+(*                "fresh" repaired: only a canonical type r received in the class_or_union pass of this comparison,   *)
+(*                        and the flag is reset when the canonical type becomes final (confirmation, canonicalize())   *)
+(*   Outermost    "coded" as coded: at the outermost return confirm_ct_propagation(r) only drops the dependency on r  *)
+(*                        and cancel_ct_propagation(r) only what depends on r: a type depending on an *inner*          *)
+(*                        recursive type stays non-confirmed for ever and a later failing comparison of that inner    *)
+(*                        type takes its (long since valid) canonical type away (TLC: 5 nodes, 22.8 M states)          *)
+(*                "flush" repaired: nothing tentative survives the outermost comparison                              *)
+(* GraphClass "any" | "consistent" (what one C translation unit can contain: from any type at most one struct /      *)
+(* typedef per name is reachable), OrderClass "any" | "scc" (sub-types first, any order inside a strongly connected  *)
+(* component: what the readers' late canonicalization mostly does), PropagateDespiteCycle (mutant: a detected cycle   *)
+(* records no dependency and nothing is ever cancelled -- TLC must refute CanonIffBisim, otherwise the check is       *)
+(* vacuous).  Canon.cfg & co. = all three repairs: CanonIffBisim holds.  CanonAsCoded.cfg = the code: refuted.        *)
 EXTENDS Naturals, Integers, Sequences, FiniteSets, TLC, Json
 
 CONSTANTS N,                      \* number of type nodes
@@ -49,7 +61,7 @@ CONSTANTS N,                      \* number of type nodes
           Kinds,                  \* subset of {"ptr", "typedef"}: node kinds besides "struct"
           MaxEdges,               \* bound on the total number of members (edges out of structs)
           AllowDecl,              \* declaration-only structs are generated
-          GraphClass, OrderClass, CycleCheck, Pass2Cancel, PropagateDespiteCycle
+          GraphClass, OrderClass, CycleCheck, Pass2Cancel, Outermost, PropagateDespiteCycle
 
 Names == {1, 2}
 Nodes == 1..N
@@ -201,10 +213,11 @@ BeginCanon(t) ==
   /\ phase = "run" /\ cur = 0 /\ t \notin done
   /\ (OrderClass = "scc" => \A c \in Range(g[t].kids) : c \in done \/ t \in ReachFrom(g, {c}))
   /\ IF canon[t] # 0 \/ g[t].d              \* canonicalize(): already has one / is_non_canonicalized_type (decl-only class)
-       THEN done' = done \cup {t} /\ UNCHANGED <<canon, canonMap, sv>>
+       THEN /\ done' = done \cup {t} /\ UNCHANGED <<canon, canonMap, sv>>
+            /\ propagated' = IF Pass2Cancel = "fresh" THEN propagated \ {t} ELSE propagated     \* repaired: the flag ends here
        ELSE /\ cur' = t /\ cands' = Reverse(canonMap[KeyOf(g, t)]) /\ mode' = "pick"
-            /\ UNCHANGED <<cv, stack, rv, res>>
-  /\ UNCHANGED <<gv, pv>>
+            /\ UNCHANGED <<cv, stack, rv, res, propagated>>
+  /\ UNCHANGED <<gv, deps, nonConf, aborted>>
 
 CompareStep ==
   /\ phase = "run" /\ cur # 0
@@ -232,7 +245,8 @@ ClearProp(s, t) == IF t \in s.p THEN [s EXCEPT !.c[t] = 0, !.p = @ \ {t}] ELSE s
 TrackOp(s, r) == [s EXCEPT !.n = @ \cup {r}]
 ConfirmOp(s, r) ==
   LET d1 == [t \in Nodes |-> IF t \in s.n THEN s.d[t] \ {r} ELSE s.d[t]]
-      s1 == [s EXCEPT !.d = d1, !.n = {t \in s.n : d1[t] # {}}, !.a = s.a \/ \E t \in s.n : s.d[t] = {}]
+      s1 == [s EXCEPT !.d = d1, !.n = {t \in s.n : d1[t] # {}}, !.a = s.a \/ \E t \in s.n : s.d[t] = {},
+                      !.p = IF Pass2Cancel = "fresh" THEN @ \ {t \in s.n : d1[t] = {}} ELSE @]    \* repaired: confirmed = no longer "propagated"
   IN IF s1.d[r] # {} THEN [s1 EXCEPT !.d[r] = {}, !.n = @ \ {r}] ELSE s1
 RECURSIVE Collect(_, _, _)
 Collect(s, targets, acc) == LET new == {t \in s.n \ acc : s.d[t] \cap targets # {}} IN
@@ -246,6 +260,12 @@ CancelOp(s, r) ==
                       !.d = [t \in Nodes |-> IF t \in hit THEN {} ELSE s.d[t]],
                       !.n = @ \ S]
   IN IF s1.d[r] # {} THEN [ClearProp(s1, r) EXCEPT !.d[r] = {}, !.n = @ \ {r}] ELSE s1
+(* repaired end of the outermost comparison: no tentative state is left behind *)
+FlushOp(s, ok) ==
+  IF Outermost # "flush" THEN s
+  ELSE IF ok THEN [s EXCEPT !.d = [t \in Nodes |-> {}], !.n = {}, !.p = IF Pass2Cancel = "fresh" THEN @ \ s.n ELSE @]
+  ELSE [s EXCEPT !.c = [t \in Nodes |-> IF t \in s.n /\ t \in s.p THEN 0 ELSE s.c[t]], !.p = @ \ s.n,
+                 !.d = [t \in Nodes |-> {}], !.n = {}]
 Pass2Op(s, f) ==                                         \* maybe_cancel_propagated_canonical_type(r) at the start of the class_decl pass
   IF f.r \in s.p /\ (Pass2Cancel = "flag" \/ ~f.had) THEN [ClearProp(s, f.r) EXCEPT !.n = @ \ {f.r}] ELSE s
 
@@ -256,8 +276,8 @@ Settle(kind) ==                                           \* pop the pair, do th
          k == IF rv = "T" /\ deps[f.r] # {} /\ stk # <<>> /\ f.r \in propagated THEN "track"
               ELSE IF rv = "T" /\ stk = <<>> THEN "confirm"
               ELSE IF rv = "F" THEN "cancel" ELSE "none"
-         s1 == CASE k = "track" -> TrackOp(Now, f.r) [] k = "confirm" -> ConfirmOp(Now, f.r)
-                 [] k = "cancel" -> CancelOp(Now, f.r) [] OTHER -> Now
+         s1 == CASE k = "track" -> TrackOp(Now, f.r) [] k = "confirm" -> FlushOp(ConfirmOp(Now, f.r), TRUE)
+                 [] k = "cancel" -> (IF stk = <<>> THEN FlushOp(CancelOp(Now, f.r), FALSE) ELSE CancelOp(Now, f.r)) [] OTHER -> Now
          again == rv = "T" /\ f.ph = 1                             \* equals(class_decl) goes on after equals(class_or_union):
          s2 == IF again THEN Pass2Op(s1, f) ELSE s1                 \* no bases / virtual functions in C: it returns true at once
      IN /\ k = kind
@@ -277,7 +297,8 @@ EndCanon(t) ==
   /\ canonMap' = IF res = t THEN [canonMap EXCEPT ![KeyOf(g, t)] = Append(@, t)] ELSE canonMap
   /\ done' = done \cup {t}
   /\ cur' = 0 /\ mode' = "idle" /\ res' = 0 /\ cands' = <<>> /\ UNCHANGED <<stack, rv>>
-  /\ UNCHANGED <<gv, pv>>
+  /\ propagated' = IF Pass2Cancel = "fresh" THEN propagated \ {t} ELSE propagated         \* repaired: the flag ends here
+  /\ UNCHANGED <<gv, deps, nonConf, aborted>>
 
 Next == AddNode \/ (\E t \in Nodes : BeginCanon(t) \/ EndCanon(t)) \/ CompareStep
         \/ Propagate \/ Track \/ Confirm \/ Cancel \/ Return
@@ -293,6 +314,9 @@ CanonIffBisim ==
   Quiescent => LET D == {a \in done : Canonicalizable(a)} IN
                /\ \A a \in D : canon[a] # 0
                /\ \A a, b \in D : SameKey(a, b) => ((canon[a] = canon[b]) <=> (<<a, b>> \in bis))
+(* the first half alone: no type loses (or never gets) its canonical type -- what the sticky flag and the stale entries break, *)
+(* separately from the unsound cycle test                                                                                   *)
+DoneHaveCanon == Quiescent => \A a \in done : Canonicalizable(a) => canon[a] # 0
 (* soundness also for the canonical types sub-types received on the fly, before their own canonicalization *)
 PropagatedSound == Quiescent => \A a, b \in Nodes : (canon[a] # 0 /\ canon[a] = canon[b]) => <<a, b>> \in bis
 (* canonical types are representatives: canon[t] is itself canonical, of t's name, and listed in canonMap *)
